@@ -5,6 +5,8 @@ import (
 	"sort"
 	"strconv"
 	"strings"
+
+	"verif/internal/vf"
 )
 
 type opInfo struct {
@@ -75,6 +77,7 @@ type group struct {
 	ConstK *kind  // kind of the constant operand
 	RX, RY []val  // drawn operands
 	ID     string
+	Excl   string // key of the recorded finding that removed constructs from the group
 }
 
 func (g *group) result() *kind {
@@ -206,7 +209,7 @@ var binForms = []string{"vv", "vl", "vc", "vu", "lv", "cv", "uv"}
 func nonZero(vs []val) []val {
 	var out []val
 	for _, v := range vs {
-		if v.I != nil && v.I.Sign() == 0 {
+		if (v.I != nil && v.I.Sign() == 0) || v.Lit == "0" || v.Lit == "(0 + 0i)" {
 			continue
 		}
 		out = append(out, v)
@@ -242,6 +245,11 @@ func (p *planner) binary() {
 						g.ConstK = k
 						if (o.Name == "quo" || o.Name == "rem") && k.isInt() && f[0] == 'v' {
 							g.Consts = nonZero(g.Consts) // a constant zero divisor is a compile error
+						}
+						if o.Name == "quo" && (k.isFloat() || k.isComplex()) && (f == "vl" || f == "vu") && c != "opas" && vf.IsKnown("C02", keyFloatDivZero) {
+							// recorded finding: the whole function would be rejected
+							g.Consts = nonZero(g.Consts)
+							g.Excl = keyFloatDivZero
 						}
 					}
 					p.add(g)
@@ -380,6 +388,23 @@ func (p *planner) convTab(src, dst *kind) *table {
 			}
 		}
 		t.Vals = append(t.Vals, complexVal(16777217, 0.1, src))
+		p.tabs[name] = t
+		return t
+	case src.isInt() && (dst.isInt() || dst.isFloat()):
+		// bit patterns whose bytes differ, so that a conversion through a
+		// narrower kind is visible, and integers that a float must round
+		name := "tP" + src.Short
+		if t, ok := p.tabs[name]; ok {
+			return t
+		}
+		t := &table{Name: name, K: src}
+		seen := map[string]bool{}
+		for _, v := range append(append([]val{}, base.Vals...), convPatterns(src)...) {
+			if !seen[v.Src] {
+				seen[v.Src] = true
+				t.Vals = append(t.Vals, v)
+			}
+		}
 		p.tabs[name] = t
 		return t
 	case src.isInt() && dst.Class == "string":
